@@ -60,18 +60,18 @@ ASSUMPTIONS = [
 ]
 FLOORS = {
     'quick': {
-        'objects_created': 18000, 'created_on_recycled_dirty': 16000,
-        'zero_init_on_recycled_dirty': 8000, 'partial_init_on_recycled_dirty': 700,
-        'full_init_on_recycled_dirty': 8000, 'overlap_checks': 18000,
-        'heap_free_observed': 18000, 'pattern_checks': 80000, 'api_writes': 1500,
-        'zero_length_objects': 400, 'wrapper_dropped_raw_kept': 400,
-        'mt_histories': 4,
-        'vis_child_saw_parent_write': 500, 'vis_parent_saw_child_write': 500,
-        'vis_sibling_saw_child_write': 400, 'vis_rebuilt_nonzero_offset': 150,
-        'vis_obj_in_later_arena': 30,
-        'vis_sessions_spawn': 6, 'vis_sessions_forkserver': 6, 'vis_sessions_fork': 6,
-        'probe_blocked_observed': 300, 'alloc_after_start_objects': 900,
-        'locked_rmw': 60000, 'atomic_runs': 16, 'control_runs_with_lost_updates': 3,
+        'objects_created': 8000, 'created_on_recycled_dirty': 7000,
+        'zero_init_on_recycled_dirty': 3000, 'partial_init_on_recycled_dirty': 300,
+        'full_init_on_recycled_dirty': 3000, 'overlap_checks': 8000,
+        'heap_free_observed': 8000, 'pattern_checks': 30000, 'api_writes': 600,
+        'zero_length_objects': 150, 'wrapper_dropped_raw_kept': 150,
+        'mt_histories': 2,
+        'vis_child_saw_parent_write': 300, 'vis_parent_saw_child_write': 300,
+        'vis_sibling_saw_child_write': 250, 'vis_rebuilt_nonzero_offset': 100,
+        'vis_obj_in_later_arena': 25,
+        'vis_sessions_spawn': 5, 'vis_sessions_forkserver': 5, 'vis_sessions_fork': 5,
+        'probe_blocked_observed': 160, 'alloc_after_start_objects': 700,
+        'locked_rmw': 30000, 'atomic_runs': 12, 'control_runs_with_lost_updates': 3,
     },
     'thorough': {
         'objects_created': 95000, 'created_on_recycled_dirty': 90000,
@@ -100,21 +100,21 @@ CARRIERS = ('fork', 'spawn', 'forkserver')
 def plan(tier, seed):
     q = tier == 'quick'
     specs = []
-    for i in range(8 if q else 18):
+    for i in range(6 if q else 18):
         specs.append({'mode': 'init', 'seed': seed * 1000 + i,
-                      'histories': 5 if q else 8, 'ops': 2000 if q else 3500})
-    for i in range(3 if q else 6):
+                      'histories': 4 if q else 8, 'ops': 1500 if q else 3500})
+    for i in range(2 if q else 6):
         specs.append({'mode': 'init_mt', 'seed': seed * 1000 + 50 + i,
                       'threads': 2 + (i + seed) % 4, 'histories': 2 if q else 3,
                       'ops': 800 if q else 2500})
     for ci, c in enumerate(CARRIERS):
-        for i in range(4 if q else 6):
+        for i in range(3 if q else 6):
             specs.append({'mode': 'vis', 'carrier': c,
                           'seed': seed * 1000 + 100 + 20 * ci + i,
                           'sessions': 3 if q else 8,
-                          'rounds': 8 if q else 12})
+                          'rounds': 6 if q else 12})
     for ci, c in enumerate(CARRIERS):
-        for i in range(4 if q else 7):
+        for i in range(3 if q else 7):
             nprocs = [2, 4, 8, 12, 3, 6, 5, 10, 7, 9][(i + seed + ci) % 10]
             if q:
                 iters = [4000, 1500, 600, 200][(i + ci) % 4]
